@@ -11,7 +11,6 @@ use std::sync::atomic::{AtomicU64, Ordering};
 use std::sync::{Arc, Mutex};
 use std::time::Duration;
 use tensor_blob::{BlobConfig, BlobStore, PutOptions};
-use tensor_store::TensorStore;
 
 #[derive(Clone, Debug, Serialize, Deserialize)]
 pub enum SetupOp {
@@ -105,15 +104,15 @@ struct ArtRec {
     writer: Option<(usize, usize)>,
 }
 
-fn new_store(c: usize) -> Result<BlobStore, Fail> {
+fn new_store(c: usize, reuse: bool) -> Result<BlobStore, Fail> {
     let cfg = BlobConfig::new().with_chunk_size(c).with_gc_batch_size(1_000_000).with_gc_min_age(Duration::from_secs(SIM_MIN_AGE_SECS));
-    block_on(BlobStore::new(TensorStore::new(), cfg)).map_err(|e| Fail::new("harness", e.to_string()))
+    block_on(BlobStore::new(empty_store(reuse), cfg)).map_err(|e| Fail::new("harness", e.to_string()))
 }
 
 pub fn sched_check(case: &SchedCase, ctx: &mut CaseCtx) -> Result<(), Fail> {
     let c = case.chunk as usize;
     let n = case.scripts.len();
-    let blob = Arc::new(new_store(c)?);
+    let blob = Arc::new(new_store(c, true)?);
     let registry: Arc<Mutex<Vec<ArtRec>>> = Arc::new(Mutex::new(Vec::new()));
     let mut preexisting: BTreeSet<String> = BTreeSet::new();
     // ---- setup (sequential)
@@ -233,7 +232,7 @@ pub fn sched_check(case: &SchedCase, ctx: &mut CaseCtx) -> Result<(), Fail> {
             }
         }));
     }
-    let report = sched::run(scripts, &case.schedule, &["blob.chunk.rmw", "blob.refs.rmw"], Duration::from_secs(3));
+    let report = sched::run(scripts, &case.schedule, &["blob.chunk.rmw", "blob.refs.rmw"], Duration::from_millis(200));
     if let Some((t, msg)) = report.panics.first() {
         ctx.fail("conc-panic-in-thread", format!("thread {t} panicked: {msg}"))?;
     }
@@ -250,6 +249,15 @@ pub fn sched_check(case: &SchedCase, ctx: &mut CaseCtx) -> Result<(), Fail> {
     }
     if report.blocked_events > 0 {
         ctx.label("scheduler: granted thread blocked on a product lock");
+        let ages_in_script = case.scripts.iter().flatten().any(|o| matches!(o, TOp::Gc(true)));
+        if ages_in_script {
+            // The fallback lets two threads run at once. The product holds no lock across the hooked
+            // windows, so this only happens when the machine is overloaded; the harness's own
+            // read-modify-write of `_created` (simulated ageing inside a script) could then race with
+            // a product update, which would be the harness's fault. Such a case decides nothing.
+            ctx.label("inconclusive: scheduler fallback in a case with simulated ageing inside a script (checks skipped)");
+            return Ok(());
+        }
     }
     ctx.note = Some(serde_json::json!({"yields": report.trace.len(), "overlaps_chunk_rmw": ov_chunk, "overlaps_refs_rmw": ov_refs}));
 
@@ -479,12 +487,12 @@ pub fn stress_part() -> CustomPart {
                 stats.extra.insert("skipped".into(), serde_json::json!("real-thread stress runs in the thorough tier only"));
                 return None;
             }
-            let rounds = cfg.cases(0, 60);
+            let rounds = cfg.cases(0, 400);
             for r in 0..rounds {
                 let threads = 2 + (r as usize % 7);
                 let per = 30usize;
                 let c = 16 + (r as usize % 3) * 8;
-                let blob = Arc::new(new_store(c).ok()?);
+                let blob = Arc::new(new_store(c, false).ok()?);
                 let barrier = Arc::new(std::sync::Barrier::new(threads));
                 let hs: Vec<_> = (0..threads)
                     .map(|t| {
